@@ -3,6 +3,7 @@ package main
 import (
 	"fmt"
 	"math"
+	"sort"
 	"strconv"
 
 	"go.uber.org/zap/zapcore"
@@ -176,4 +177,42 @@ func sameShape(path string, j node, v any) error {
 		return xFloatBits(uint64(math.Float32bits(x)), 32).match(j)
 	}
 	return nil // payload kept raw by the map encoder: not comparable here
+}
+
+// mapSkeleton: the nesting zapcore.MapObjectEncoder records for the op's context and call-site fields — keys (hex,
+// sorted), objects, arrays; leaf payloads are left out (they are Go values the map keeps raw).
+func mapSkeleton(op *encOp) any {
+	m := zapcore.NewMapObjectEncoder()
+	for _, c := range op.Ctx {
+		for _, f := range buildFields(c) {
+			f.AddTo(m)
+		}
+	}
+	for _, f := range buildFields(op.Fields) {
+		f.AddTo(m)
+	}
+	return skelOf(m.Fields)
+}
+
+func skelOf(v any) any {
+	switch x := v.(type) {
+	case map[string]interface{}:
+		keys := make([]string, 0, len(x))
+		for k := range x {
+			keys = append(keys, hx([]byte(k)))
+		}
+		sort.Strings(keys)
+		ms := make([]any, 0, len(keys))
+		for _, hk := range keys {
+			ms = append(ms, []any{hk, skelOf(x[string(unhx(hk))])})
+		}
+		return map[string]any{"o": ms}
+	case []interface{}:
+		es := make([]any, 0, len(x))
+		for _, e := range x {
+			es = append(es, skelOf(e))
+		}
+		return map[string]any{"a": es}
+	}
+	return "l"
 }
